@@ -26,6 +26,12 @@ def step (line : String) : String :=
       if rB = 0 || rT = 0 || nB = 0 || nT = 0 then return "err:size0"
       let bB := effBatch nB rB; let bT := effBatch nT rT
       return s!"{uniqueLen nB bB nT bT} | {showPairBatches (uniquePass nB bB nT bT)}"
+    | "uniquelast" => do
+      -- the per-function layout with the other tail policy (last window = last bs rows); coverage: unique_cover_last
+      let nB ← nat; let rB ← int; let nT ← nat; let rT ← int
+      if rB = 0 || rT = 0 || nB = 0 || nT = 0 then return "err:size0"
+      let bB := effBatch nB rB; let bT := effBatch nT rT
+      return s!"{uniqueLen nB bB nT bT} | {showPairBatches (uniquePassWin lastSlice nB bB nT bT)}"
     | "foldinf" => do
       let bs ← many (many rat)
       return showRat (foldInf bs)
